@@ -342,7 +342,9 @@ fn domain_clause(a: &Ast, o: &ORq) -> Tri {
             if a.dom_pos.is_empty() {
                 Tri::Must(true) // nothing can be excluded, nothing is required
             } else {
-                Tri::Unspec
+                // no initiator is among the listed domains: the option is not satisfied (the
+                // repaired D5; the index never probes a domain hash for such a request either)
+                Tri::Must(false)
             }
         }
         Some(i) => {
@@ -1569,7 +1571,7 @@ fn check(ctx: &Ctx) -> i32 {
         "model_checking",
         "A: 6 pattern forms x every purely positive and purely negated list over the 11 type atoms (quick: 2048 positive + 63 negated over 6 atoms) x with/without document x 7 party spellings x exception x important (thorough: options also in reversed order), each against 25 type strings x 6 schemes x {third-party, first-party, absent} initiators (scheme-pinned forms additionally against a URL carrying http/https/ws as path tokens, 6 type strings); B: 79 ordered domain lists over {a.com, sub.a.com, b.com} x domain=/from= x party x 4 (thorough 10) type lists x {ads, *} x exception, against 6 initiators x first-/third-party host x 4 schemes x 4 types; C: full-regex literal rules x match-case x option, against URL case variants, plus match-case on non-regex rules; D: 18 option spellings singly and in pairs, all option orders of 4 option sets; F: 12 pattern shapes next to `||host^` (right pipe, path, missing caret, left pipe, unanchored) and the two `||host^` rules themselves x 12 option sets x exception, against document / main_frame / 4 other types x 7 URLs x 4 initiators (only `||host^` without a type option applies to documents); G: for every request type string (also those no option can name), of the eleven one-type rules at most one applies; E: every subset of 3..8 of a 10-domain pool as an all-positive and as an all-negated domain= list, against each listed domain, three sub-domains of each, unrelated and absent initiators. Every rule is evaluated with NetworkFilter::matches and on a single-rule engine. A case is non-trivial when the reference or the implementation says the rule applies; states = rules parsed + engines built, transitions = (rule, request, observation point) executions, traces_validated = executions compared with the reference.",
         &[
-            "Unspecified (executed, not compared): mixed positive+negated type lists; positive domain= list or party option with an absent initiator; request type strings csp_report and unknown ('fetch'); unsupported schemes at matcher level (asserted at the engine only)",
+            "Unspecified (executed, not compared): mixed positive+negated type lists; party option with an absent initiator; request type strings csp_report and unknown ('fetch'); unsupported schemes at matcher level (asserted at the engine only)",
             "exception rules are observed on single-rule engines through check_network_request_subset(req, true, true), blocking rules through check_network_request",
             "hosts are under .com/.net, so the registrable domain is the last two labels (oracle side)",
             "seahash collision-freedom checked for the domain and token strings used",
